@@ -200,6 +200,17 @@ class Gen(object):
             node = om.icall(self.handle(r.choice(self.inst_vars('A'))[0]), n, items)
         return T(node, ty)
 
+    def legacy_keyword(self, inv):
+        '''the optional statement keyword of the old syntax: bridge EE::f(..), transform KL::op(..) / inst.op(..)'''
+        if self.rng.random() < 0.6:
+            return None
+        alt = getattr(inv, 'alt_cls', None) or ()
+        if 'BridgeInvocationNode' in alt:
+            return 'bridge'
+        if 'ClassInvocationNode' in alt or inv.cls == 'InstanceInvocationNode':
+            return 'transform'
+        return None
+
     def literal(self, ty):
         r = self.rng
         if ty == INT:
@@ -315,8 +326,11 @@ class Gen(object):
                 name = r.choice(vs)[0]
             else:
                 name = self.fresh()
-            e = self.expr(ty, 3)
-            st = om.assign(T(om.var(name), ty), e)
+            e = self.invocation(ty, 2) if r.random() < 0.15 else None
+            prefix = self.legacy_keyword(e) if e is not None else None
+            if e is None:
+                e = self.expr(ty, 3)
+            st = om.assign(T(om.var(name), ty), e, prefix=prefix)
             self.declare(name, ty)
             return st
         if k == 'array':
@@ -404,7 +418,7 @@ class Gen(object):
             e = self.invocation(VOID if r.random() < 0.6 else r.choice((INT, STR, BOOL)), 2)
             if e is None:
                 return None
-            return om.invoke(e)
+            return om.invoke(e, self.legacy_keyword(e))
         if k == 'return':
             if self.home == 'derived':
                 return None
